@@ -866,15 +866,18 @@ def gStep (g : MObj) : GOp → MObj × Outcome × List Call
     -- stash.go:81 setValue: createBinding(name, true, value) when there is no binding, else setBinding
     if !gHas g then (gCreate g true v, .ok, []) else let r := gSet g v; (r.1, .ok, r.2)
   -- cmpl_evaluate.go: scope.eval is set while an eval program is instantiated
-  | .varDecl eval => if !gHas g then (gCreate g eval 0, .ok, []) else (g, .ok, [])
+  -- cmpl_evaluate.go: after createBinding the binding must exist, else TypeError (10.2.1.2.2)
+  | .varDecl eval =>
+    if !gHas g then (let g1 := gCreate g eval 0; if gHas g1 then (g1, .ok, []) else (g1, .typeError, []))
+    else (g, .ok, [])
   | .varInit v =>
     let g1 := if !gHas g then gCreate g false 0 else g
-    let r := gSet g1 v
-    (r.1, .ok, r.2)
+    if !gHas g1 then (g1, .typeError, [])          -- instantiation failed: the program does not run
+    else let r := gSet g1 v; (r.1, .ok, r.2)
   | .funDecl eval =>
     -- cmpl_evaluate.go cmplFunctionDeclaration, 10.5 step 5.e on the global object
     match alookup 0 g.props with
-    | none => (gCreate g eval fnVal, .ok, [])
+    | none => (let g1 := gCreate g eval fnVal; if gHas g1 then (g1, .ok, []) else (g1, .typeError, []))
     | some existing =>
       if existing.configurable then
         match defineOwn g 0 ⟨.val 0, ⟨.on, .on, if eval then .on else .off⟩⟩ with
@@ -995,9 +998,7 @@ def builtinCreates (b : Builtin) : List Call × DescObs :=
   | _ => ([], .data 4 true true true)
 
 /-! ### Object.defineProperties / Object.create with a descriptor map whose members have side effects
-    (builtin_object.go builtinObjectDefineProperties / builtinObjectCreate over objectEnumerate, object_class.go:22:
-    the walk runs over a snapshot of propertyOrder but re-checks, for every name, that the property still
-    exists and is enumerable NOW, then reads it) -/
+    (builtin_object.go builtinObjectDefineProperties / builtinObjectCreate via propertyDescriptorsOf) -/
 
 /-- what reading one member of the map does -/
 inductive MAct
@@ -1008,25 +1009,27 @@ inductive MAct
   | thr                   -- a getter that throws TypeError
 deriving DecidableEq, Repr
 
-/-- walk state: (deleted?, hidden?) per member position -/
-def mapWalk (ents : List (Name × MAct)) : Nat → List Bool → List Bool → List Name → Nat → Option (List Name)
-  | 0, _, _, acc, _ => some acc
-  | fuel + 1, dels, hids, acc, i =>
+/-- builtin_object.go propertyDescriptorsOf: the names are collected first (no member is read meanwhile), then every
+    one is read with get and converted: a member deleted meanwhile reads as undefined, which toPropertyDescriptor
+    rejects; a member made non-enumerable meanwhile is still read.  `dels` = deleted? per member position -/
+def mapWalk (ents : List (Name × MAct)) : Nat → List Bool → List Name → Nat → Option (List Name)
+  | 0, _, acc, _ => some acc
+  | fuel + 1, dels, acc, i =>
     match ents[i]? with
     | none => some acc
     | some (n, act) =>
-      if dels.getD i false || hids.getD i false then mapWalk ents fuel dels hids acc (i + 1)   -- `!exists` / not enumerable: skipped
+      if dels.getD i false then none
       else
         match act with
-        | .plain => mapWalk ents fuel dels hids (acc ++ [n]) (i + 1)
-        | .del j => mapWalk ents fuel (dels.set j true) hids (acc ++ [n]) (i + 1)
-        | .hide j => mapWalk ents fuel dels (hids.set j true) (acc ++ [n]) (i + 1)
+        | .plain => mapWalk ents fuel dels (acc ++ [n]) (i + 1)
+        | .del j => mapWalk ents fuel (dels.set j true) (acc ++ [n]) (i + 1)
+        | .hide _ => mapWalk ents fuel dels (acc ++ [n]) (i + 1)
         | .bad => none
         | .thr => none
 
 /-- (outcome, own names of the target afterwards); the target is a fresh object, every valid descriptor defines a data property -/
 def defineMap (ents : List (Name × MAct)) : Outcome × List Name :=
-  match mapWalk ents (ents.length + 1) (ents.map fun _ => false) (ents.map fun _ => false) [] 0 with
+  match mapWalk ents (ents.length + 1) (ents.map fun _ => false) [] 0 with
   | none => (.typeError, [])
   | some names => (.ok, names.eraseDups)
 
